@@ -55,6 +55,7 @@ MCSeq_single9 == SeqsUpTo(Rows(S3, A9), 1)
 QuickFaultRows == {Row3(G1(1), HET, HET), [Row3(HET, HET, HET) EXCEPT !.bad = TRUE], Row3(MISS, HET, G1(1))}
 QuickHistoryRows == {Row3(HET, HOM1, HET), Row3(MISS, HOM1, HET), Row3(HET, HET, MISS), Row3(MULT, HOM0, HOM1)}
 MCSeq_hist_quick == SeqsUpTo(QuickHistoryRows \cup QuickFaultRows, 3)
+MCSeq_refine == SeqsUpTo(QuickHistoryRows \cup QuickFaultRows, 2)
 MCSeq_hist3 == SeqsUpTo(HistoryRows \cup FaultRows, 3)
 MCSeq_hist4 == SeqsUpTo(QuickHistoryRows \cup {Row3(G1(1), HET, HET)}, 4)
 MCSeq_nofault3 == SeqsUpTo(HistoryRows, 3)
